@@ -726,9 +726,16 @@ impl Interface {
                     EgressError::Exhausted
                 })?;
 
-                inner
-                    .dispatch_ip(t, meta, response, &mut self.fragmenter)
-                    .map_err(|_| EgressError::Dispatch)?;
+                match inner.dispatch_ip(t, meta, response, &mut self.fragmenter) {
+                    Ok(()) => {}
+                    // There is no way to ever deliver this packet: drop it like a packet without
+                    // a usable source address, instead of leaving it at the head of the socket's
+                    // queue where it would block everything behind it for ever.
+                    Err(DispatchError::NoRoute) => {
+                        net_debug!("failed to transmit IP: no route to destination, dropping");
+                    }
+                    Err(_) => return Err(EgressError::Dispatch),
+                }
 
                 result = PollResult::SocketStateChanged;
 
